@@ -116,6 +116,8 @@ def read_fixture():
             if fn.endswith(".dot"):
                 continue
             p = os.path.join(root, fn)
+            if os.path.islink(p):
+                continue  # symbolic links are listed in corpus.json ("symlinks") and re-created per project
             out[os.path.relpath(p, FIXTURE)] = open(p, "rb").read()
     return out
 
